@@ -61,7 +61,7 @@ def run(cmd, cwd=None, env=None, timeout=None, out=None):
     return rc
 
 def worker(k, q, outdir, lock, resf):
-    wt = f'/root/scratch/mutw/w{k}'
+    wt = f'/root/scratch/mutw/{os.environ.get("MUTW","w")}{k}'
     subprocess.run(['git', '-C', '/repo', 'worktree', 'remove', '--force', wt], capture_output=True)
     shutil.rmtree(wt, ignore_errors=True)
     os.makedirs(os.path.dirname(wt), exist_ok=True)
@@ -100,7 +100,7 @@ def worker(k, q, outdir, lock, resf):
                                   json.dumps(m['orig']), json.dumps(m['repl'])]) + '\n'); resf.flush()
     subprocess.run(['git', '-C', '/repo', 'worktree', 'remove', '--force', wt], capture_output=True)
     shutil.rmtree(wt, ignore_errors=True)
-    shutil.rmtree(f'{VER}/.build/alt/mutw-w{k}', ignore_errors=True)
+    shutil.rmtree(f'{VER}/.build/alt/mutw-{os.environ.get("MUTW","w")}{k}', ignore_errors=True)
 
 def main():
     mutf, outdir = sys.argv[1], sys.argv[2]
